@@ -16,8 +16,9 @@ is the root, maps made for intermediate key parts get reserved ids placed before
 
 Anything Resources.tla cannot express marks the test `unsupported` with a reason (listed in the evidence, never a
 violation): tables written directly after the first call, calls outside the generated domain of SetItem (a node
-stored in two places, cycles), re-entrant use of the tree from inside load(), a load() that raises, snapshot classes
-not made by get_static_map(), handles that were already cached when first seen, non-string keys.
+stored in two places, cycles), reads of a snapshot older than the latest one, re-entrant use of the tree from inside
+load(), a load() that raises, snapshot classes not made by get_static_map(), handles that were already cached when
+first seen, non-string keys.
 """
 import functools
 import json
@@ -94,6 +95,7 @@ class TRec:
         self.maxlayers = 1
         self.unsupported = None
         self.snapshots = False
+        self.all_snaps = set()      # id() of every snapshot node ever made (the roots are kept alive in `keep`)
 
     def bad(self, why):
         if self.unsupported is None:
@@ -205,7 +207,6 @@ class TRec:
         if len(pushed) == 1 and now[0] == self.sig[0] and now[2] == self.sig[2] \
                 and all(now[1][k] == self.sig[1][k] for k in now[1] if k != pushed[0]):
             self.env.loaded, self.env.seen = [], []
-            self.env.snaps = {}
             self.emit('PushLayer', (pushed[0],), ('ok',))
         else:
             self.bad('tables written directly between recorded calls')
@@ -409,11 +410,12 @@ class Session:
             return (R.discover(self_), R.path(key))
 
         def can_set(R, m, p, node):
-            """The generated domain of SetItem, on the real tables (a node sits in one place: no staging moves)."""
+            """The generated domain of SetItem, on the real tables (a node sits in one place: no staging moves; it may be
+            stored again where it is)."""
             from . import record_resources as rr
             mp, ly = R.tables()
             sh = rr.Shadow(['m0'] + sorted(k for k in mp if k != 'm0'), mp, ly)
-            if node in sh.held or not sh.can_set(m, tuple(p), node, (), pool=False):
+            if not sh.can_set(m, tuple(p), node, (), pool=False, moves=False):
                 return False
             # the least free pool id must be a reserved one never used before
             return not any(k[0] == 'i' and k not in sh.held and sh.blank(k) and k not in (m, node) for k in sh.mp)
@@ -437,7 +439,6 @@ class Session:
                     if cur is None:
                         break
                     R.discover(cur, implicit=True)
-                R.env.snaps = {}
             return S.call('SetItem', args, lambda: o['ResourceMap', '__setitem__'](self_, key, value), True, post=post)
 
         def getitem(self_, key):
@@ -449,9 +450,7 @@ class Session:
                           lambda: o['ResourceMap', 'get'](self_, key, default), default=(default,))
 
         def clear(self_):
-            def post(R, a, v, ex):
-                R.env.snaps = {}
-            return S.call('Clear', lambda R: (R.discover(self_),), lambda: o['ResourceMap', 'clear'](self_), True, post=post)
+            return S.call('Clear', lambda R: (R.discover(self_),), lambda: o['ResourceMap', 'clear'](self_), True)
 
         def get_static_map(self_):
             def post(R, a, v, ex):
@@ -460,6 +459,7 @@ class Session:
                 if ex is None:
                     R.ad._bind_snapshot(v, a[0])
                     R.keep.append(v)
+                    R.all_snaps.update(id(s) for s in R.env.snaps.values())
             return S.call('Snapshot', lambda R: (R.discover(self_),), lambda: o['ResourceMap', 'get_static_map'](self_),
                           post=post)
 
@@ -470,7 +470,11 @@ class Session:
             return S.call('ClearHandle', lambda R: (R.discover(self_),), lambda: o['Handle', 'clear'](self_), True)
 
         def snode(R, self_):
-            return next((k for k, s in R.env.snaps.items() if s is self_), None)
+            """The snapshot at hand is the latest one: it is kept, and read, while its map changes (KeepSnap)."""
+            k = next((k for k, s in R.env.snaps.items() if s is self_), None)
+            if k is None and id(self_) in R.all_snaps:
+                R.bad('a snapshot older than the latest one is read')
+            return k
 
         def sargs(self_, name):
             def f(R):
